@@ -46,11 +46,15 @@ type CSVCase struct {
 
 var delims = []byte{',', ',', ',', ';', '\t', '|', ' ', 'x', '0', 0x00, 0xff}
 
-var strPieces = []string{"a", "b", "abc", "x", " ", "  ", "\"", "\"\"", "\n", "é", "\xff", "\xc3", "0", "t", "-", ".", "'", "$", "Z", "漢"}
+var strPieces = []string{"a", "b", "abc", "x", " ", "  ", "\"", "\"\"", "\n", "é", "\xff", "\xc3", "0", "t", "-", ".", "'", "$", "Z", "漢",
+	// what other dialects give a meaning to: end-of-file marker, null spellings, comment and directive starts
+	"\x1a", "\\N", "NA", "NULL", "null", "#", "\x00", ",", ";", "="}
 var intCells = []string{"0", "1", "-1", "12", "+7", "007", "123456789", "-0", "9223372036854775807"}
 var floatCells = []string{"1.5", "-2.25", "1e3", "NaN", "inf", "-Inf", "0.1", ".5", "5.", "1E-7", "-0.0", "0x1p-2", "9300000000000000000", "18446744073709551615", "123456789012345678901234567890", "0.30000000000000004", "100000000000000000000000000000000000000000", "0.00000000000000000000000000000000000001", "-12345678901234567890123456789012345.5",
 	// beyond the float64 range: strconv reports them as out of range, they are not floats
-	"1e309", "-2.5E+999", "1.7976931348623159e308", "1" + strings.Repeat("0", 400), "1_000", "0b11", "+.e1", "1e", "Infinity", "+inf", "nan"}
+	"1e309", "-2.5E+999", "1.7976931348623159e308", "1" + strings.Repeat("0", 400), "1_000", "0b11", "+.e1", "1e", "Infinity", "+inf", "nan",
+	// decimal commas and thousands separators: text, not numbers
+	"1,5", "2,25", "-3,0", "1.000,5", "1,000.5", "1 000", "$5", "5%"}
 var boolCells = []string{"true", "false", "t", "f", "T", "F", "TRUE", "False", "1", "0", "1", "0", "true", "false", "True", "FALSE",
 	// spellings strconv.ParseBool does not accept
 	"tRUE", "TRue", "FALSe", "fALSE", "tr", "yes", "Y", "01"}
